@@ -6,10 +6,16 @@ import ast
 import re
 
 from ..absdom import PregexHooks, make_operand, parse_regex, witnesses, check_type_enum, infer_empty_rule
-from ..interp import FuncRef, Interp, Obj, PyRaise, explore
+from ..interp import FuncRef, Incomplete, Interp, Obj, PyRaise, explore
 from ..model import AnalysisError, Model, norm_text
 
 PRE = "pregex.core.pre"
+NONTERM = [0]   # number of inputs on which the step budget was exhausted (process-wide)
+FUEL = 25000    # steps per path: the builders are straight-line code (a path takes < 3000 steps)
+
+
+class NonTermination(Exception):
+    """Pseudo-exception: the interpreted code exceeded the step budget (unbounded recursion / loop)."""
 
 UNARY_REF = {
     "match_at_start": lambda R: f"\\A(?:{R})",
@@ -143,7 +149,7 @@ def call_method_ident(model: Model, meth: str, recv_spec, arg_specs=(), extra_ar
     from ..interp import Interp as _I
     while stack:
         decisions = stack.pop()
-        it = _I(model, PregexHooks(model), decisions)
+        it = _I(model, PregexHooks(model), decisions, fuel=FUEL)
         recv = mk(model, recv_spec)
         args = [mk(model, a) if isinstance(a, tuple) else a for a in arg_specs]
         try:
@@ -151,7 +157,20 @@ def call_method_ident(model: Model, meth: str, recv_spec, arg_specs=(), extra_ar
             res = _Res("return", v, it)
         except PyRaise as e:
             res = _Res("raise", e, it)
+            if e.cls is RecursionError:
+                outs.append(Out(res, recv, args))
+                NONTERM[0] += 1
+                return outs, f
+        except Incomplete as e:
+            if "fuel exhausted" not in str(e):
+                raise
+            res = _Res("raise", PyRaise(NonTermination, (str(e),)), it)
+            outs.append(Out(res, recv, args))
+            NONTERM[0] += 1
+            return outs, f
         outs.append(Out(res, recv, args))
+        if len(outs) > 800:
+            raise AnalysisError("path explosion: more than 800 paths for one abstract input (unbounded forking over unknown type tags)")
         for i in range(len(decisions), len(it.trace)):
             pick, n, tag = it.trace[i]
             for alt in range(1, n):
@@ -176,15 +195,26 @@ def run_thunk(model: Model, thunk):
     stack = [[]]
     while stack:
         decisions = stack.pop()
-        it = Interp(model, PregexHooks(model), decisions)
+        it = Interp(model, PregexHooks(model), decisions, fuel=FUEL)
         try:
             v = thunk(it)
             res = _Res("return", v, it)
         except PyRaise as e:
             res = _Res("raise", e, it)
+            if e.cls is RecursionError:
+                outs.append(Out(res))
+                NONTERM[0] += 1
+                return outs      # call depth exhausted: unbounded recursion; one such path is enough
+        except Incomplete as e:
+            if "fuel exhausted" not in str(e):
+                raise
+            res = _Res("raise", PyRaise(NonTermination, (str(e),)), it)
+            outs.append(Out(res))
+            NONTERM[0] += 1
+            return outs          # one non-terminating path is enough for this input
         outs.append(Out(res))
-        if len(outs) > 5000:
-            raise AnalysisError("too many paths in run_thunk")
+        if len(outs) > 800:
+            raise AnalysisError("path explosion: more than 800 paths for one abstract input (unbounded forking over unknown type tags)")
         for i in range(len(decisions), len(it.trace)):
             pick, n, tag = it.trace[i]
             for alt in range(1, n):
